@@ -49,9 +49,10 @@ def asm_batch(cases, flavour="asan", cpu=20, malloc_fill=None, name="inproc"):
                 elif line.startswith("R "):
                     _, n, status, rest = line.rstrip("\n").split(" ", 3)
                     img_s, sym_s, lh = rest.split(" | ")
-                    lo, hi = [int(x.split("=")[1], 16) for x in lh.split()]
+                    kv = dict(x.split("=") for x in lh.split())
+                    lo, hi = int(kv.pop("low"), 16), int(kv.pop("high"), 16)
                     results[start + int(n)] = {"status": int(status), "image": parse_image(img_s), "symbols": parse_symbols(sym_s),
-                                               "low": lo, "high": hi}
+                                               "low": lo, "high": hi, "files": kv}
                     done = int(n)
         if o.kind == "ok" and o.status == 0 and done == len(cases) - start - 1:
             break
